@@ -359,6 +359,9 @@ def context_split_section(ctx):
         ("script + language + lookupflag", "", "    script latn;\n    language TRK;\n    lookupflag IgnoreMarks;\n"),
         ("useExtension", " useExtension", "    script latn;\n    language TRK exclude_dflt;\n"),
         ("context set twice", "", "    script latn;\n    language TRK exclude_dflt;\n    pos T o -5;\n    script DFLT;\n"),
+        # (a script statement ends the lookup flag in effect: the rules after it -- and after the marker -- ignore nothing)
+        ("lookupflag, then a script statement", "", "    lookupflag IgnoreMarks;\n    pos o T -5;\n    script latn;\n"),
+        ("lookupflag, script, language", "", "    lookupflag IgnoreMarks;\n    pos o T -5;\n    script latn;\n    language TRK;\n"),
     ]
     for i in range(ctx.budget(len(VARIANTS), 2 * len(VARIANTS))):
         label, ext, ctxt = VARIANTS[i % len(VARIANTS)]
@@ -391,6 +394,13 @@ def context_split_section(ctx):
                 if v1 != v0:
                     ctx.spec_failure(dict(case, script=tag, language=lang, pair=[a, b_]),
                                      "the user's rule for (%s, %s) gives %r under %s/%s with the automatic writers and %r without them" % (a, b_, v1, tag, lang.strip(), v0))
+                # ... under the same lookup flag (which glyphs the rule skips over)
+                def flags(lay):
+                    return sorted({lay.subtables(li)[0].LookupFlag for li in lay.lookups_for(tag, {"kern"}, lang=lang) if lay.pair_adjust([li], a, b_)[0]})
+                if v0 and flags(with_w) != flags(without):
+                    ctx.spec_failure(dict(case, script=tag, language=lang, pair=[a, b_]),
+                                     "the user's rule for (%s, %s) under %s/%s sits in a lookup with flag(s) %r with the automatic writers and %r without them" % (
+                                         a, b_, tag, lang.strip(), flags(with_w), flags(without)))
         if with_w.pair_adjust(with_w.lookups_for("latn", {"kern"}), "T", "o")[0] != (-30 if "twice" not in label else -30):
             ctx.spec_failure(case, "the generated kerning (T, o) = -30 is not applied under latn")
 
